@@ -190,6 +190,7 @@ def check_pins(pid):
         return ["Pins/%s.v missing" % pid]
     txt = strip_coq_comments(open(p).read())
     pinned = set(x.split(".")[-1] for x in re.findall(r"Check\s*\(\s*([A-Za-z0-9_'.]+)\s*:", txt))
+    pinned |= set(x.split(".")[-1] for x in re.findall(r"Proof\.\s*apply\s+([A-Za-z0-9_'.]+?)\.\s*Qed\.", txt))
     return ["not pinned: " + t for t in property_theorems(pid) if t not in pinned]
 
 
